@@ -104,6 +104,8 @@ class State:
         self.fused = []
         self.code = []              # emitted instruction stream of this path (ops and summary blobs)
         self.emitted = False
+        self.symops = []            # order of symbol-table operations and body compilations on this path (R09.5)
+        self.fall_pending = None    # frame id of a function body whose symbol context was closed while its code could still run on
         self.defs0 = False          # a name was declared in the scope that was current at entry (not inside a scope / context opened since)
 
     def clone(self):
@@ -125,6 +127,7 @@ class State:
         s.emits = list(self.emits)
         s.fused = list(self.fused)
         s.dirty = set(self.dirty)
+        s.symops = list(self.symops)
         s.code = [dict(c) for c in self.code]
         s.fn_entries = dict(self.fn_entries)
         s.labels = {k: copy.copy(v) for k, v in self.labels.items()}
